@@ -185,12 +185,18 @@ def faults_of(fr, rng, tier):
         x[i] ^= 1 << j
         x[i2] ^= 1 << j2
         out.append(bytes(x))
-    vals = [0x00, 0xFF, 0x3A, 0x0D, 0x0A, 0x7B, 0x7D, 0x30] if tier == "quick" else list(range(256))
+    vals = [0x00, 0xFF, 0x3A, 0x0D, 0x0A, 0x7B, 0x7D, 0x30, 0x20, 0x2B, 0x2D, 0x5F, 0x78, 0x09] if tier == "quick" else list(range(256))
     pos = range(n) if tier != "quick" else rng.sample(range(n), min(n, 12))
     for i in pos:
         for v in vals:
             if v != b[i]:
                 out.append(b[:i] + bytes([v]) + b[i + 1:])
+    if fr["kind"] == "ascii":
+        # every character of an ASCII frame replaced by the characters lenient hex parsers are known to tolerate
+        for i in range(n):
+            for v in (0x20, 0x09, 0x2B, 0x2D, 0x5F, 0x78, 0x58, 0x47, 0x67, 0x0B):
+                if v != b[i]:
+                    out.append(b[:i] + bytes([v]) + b[i + 1:])
     for i in range(n):
         out.append(b[:i] + b[i + 1:])                  # deletion
     for i in (range(n + 1) if tier != "quick" else rng.sample(range(n + 1), min(n + 1, 10))):
@@ -204,12 +210,17 @@ def faults_of(fr, rng, tier):
 def gen_c07(tier, rng):
     traces = []
     kinds = ["tcp", "rtu", "ascii", "bin"]
-    pool = Pool(rng, kinds, 6 if tier == "quick" else 30, small=True)
+    pool = Pool(rng, kinds, 24 if tier == "quick" else 40, small=True)
     k = 0
     for kind in kinds:
         for d in ("req", "rsp"):
             frs = pool.frames[(kind, d)]
-            for f in (rng.sample(frs, 3) if tier == "quick" else frs):
+            chosen = rng.sample(frs, 3) if tier == "quick" else list(frs)
+            if kind == "ascii":
+                # frames whose LRC starts with the character '0': a lenient hex parser accepts ' 1' / '+1' in its place
+                low = [f for f in frs if f["bytes"][-4:-3] == b"0" and f not in chosen]
+                chosen += low[:2]
+            for f in chosen:
                 for bad in faults_of(f, rng, tier):
                     ctx = rng.choice(["alone", "before", "after", "both"])
                     pre = [pool.pick(kind, d, 40)] if ctx in ("before", "both") else []
